@@ -15,6 +15,16 @@ TEXT = {
             "proved against the spec; any CRep representation (zero summaries or expanded zeros) has the same root. Other "
             "routes (decode, from_obj) tied by correspondence.",
             "Coq proof by induction on ty + CRep invariant; vm_compute correspondence", "5 (C01)"),
+    "C05": ("Theorems on the store-of-view-cells model (hooks as data): a write through a child view stores the new backing "
+            "in the child and, through its hook, at the child's position in the parent; the parent then reads back exactly "
+            "that backing (via the C07 read-back law); commands on unhooked views touch nothing else. One hook level "
+            "proved; deeper chains and interleavings of up to 9 simultaneously held views by correspondence.",
+            "Coq proof on the store model + correspondence", "5 (C05)"),
+    "C06": ("Theorems: on the node heap (addresses, caches) every later allocation / write / root computation leaves what "
+            "every existing address denotes unchanged (append-only objects; only root caches are written); copies carry no "
+            "hook and commands on a copy leave every other held view unchanged. Tie: histories with copies + model-free "
+            "snapshot oracle (root recomputed from scratch, child identity, re-decoding).",
+            "Coq proof on heap + store models + correspondence", "5 (C06)"),
     "C07": ("Theorems (Coq, all H/src/trees/paths, by induction on the path): read-back, frame (both directions), "
             "write-succeeds-iff-readable, only navigation errors, non-zero leaf never discarded, expansion under a zero "
             "summary = write on the expanded zero tree, summarize keeps the root. Tie to code: tree.py getter/setter/"
@@ -35,6 +45,11 @@ TEXT = {
             "and div/mod never overflow; shifts = (a*2^s) mod 2^w and a/2^s; ~a = 2^w-1-a; neg/truediv unsupported. "
             "Tie to code: basic.py operators run against the model on boundary/random operands for all six widths.",
             "Coq proof (lia + Z bit lemmas) + vm_compute correspondence with basic.py", "5 (C13)"),
+    "C14": ("Theorems: a failing command on a top-level view or copy leaves the whole store unchanged (all checks precede "
+            "the single write); each listed violation class (out-of-range / other-width integer, wrong length, over "
+            "limit, index out of bounds, pop on empty, append to full, invalid selector) is rejected by the model. Tie: "
+            "histories with ~40% invalid commands; model-free oracle 'raised => every held view unchanged'.",
+            "Coq proof on the store model + correspondence", "5 (C14)"),
     "C17": ("Theorems (all H, src, trees, paths): a partial tree (subtrees replaced by bare summaries) has the same root; "
             "every read / non-expanding write / expanding write that succeeds on it succeeds on the complete tree with "
             "related results and equal roots (expanding writes under Hinj, relying on the repaired setter); every failure "
@@ -48,6 +63,12 @@ TEXT = {
             "second root; leaf_iter = leaves at leaf positions left to right. Tie: history.py / tree.py on generated "
             "histories (repeats, reversions) and tree pairs.",
             "Coq proof by induction on paths / trees + correspondence", "5 (C18)"),
+    "C19": ("Theorems on the heap model: setter allocates only (no object or cache rewritten, no hash), the new pair at "
+            "every path step keeps the OFF-PATH child address (same node object), the heap setter refines the pure "
+            "setter through den, merkle_root on a cached node or leaf changes nothing and a second merkle_root is free. "
+            "Tie: sibling identity (`is`) and hash counts (wrapped merkle_hash) of tree.py operations vs the heap model; "
+            "view-level sharing and hash bound checked model-free.",
+            "Coq proof on the heap model + correspondence", "5 (C19)"),
     "C20": ("Theorems (all H, sources, trees, paths): a tree whose subtrees are virtual nodes over a source consistent "
             "with the materialised tree has the same root, the same navigation results and navigation errors, and the "
             "same results of writes with and without expansion (simulation relation vrel); the memo state machine of a "
